@@ -58,7 +58,7 @@ def run(ctx):
         ctx.violation("proof-broken", {"theorem": "props/C01.v", "log": log[-3000:]}, "props/C01.v no longer checks", no_input=True)
         return
     lib.coq_make(["theories/Search.vo"])
-    n_prog = ctx.pick(48, 400)
+    n_prog = ctx.pick(60, 400)
     N = ctx.pick(5, 7)
     progs = lib.replay_programs(ctx) or (list(gen.corpus()) + [(p, g, t) for p, g, t, _ in gen.abstraction_corpus()])
     abs_sup = {P.prog_text(p): s for p, _, _, s in gen.abstraction_corpus()}
